@@ -50,7 +50,7 @@ THEOREMS = {
             "Spydr.Verilog.connect_alias_spec", "Spydr.Verilog.elab_connection_spec"],
     "C04": ["Spydr.Verilog.emit_eval", "Spydr.Verilog.emit_eval_spec", "Spydr.Verilog.decl_range_roundtrip",
             "Spydr.Verilog.alias_header_roundtrip", "Spydr.Verilog.assign_regen", "Spydr.Verilog.assign_regen_all",
-            "Spydr.Verilog.write_order_defined", "Spydr.Verilog.visit_order_defined",
+            "Spydr.Verilog.write_order_defined", "Spydr.Verilog.write_order_total", "Spydr.Verilog.visit_order_defined",
             "Spydr.Verilog.verilog_roundtrip_partial",
             "Spydr.Verilog.connect_low_aligned", "Spydr.Verilog.getWires_spec"],
 }
@@ -525,6 +525,36 @@ def first_diff(a, b, path=""):
     return None if a == b else (path, a, b)
 
 
+def corr_c06_parse(res, drv, design, text):
+    """characters -> tokens -> syntax tree in Lean (`parseV (lexV text)`) against the tree of the abstract design the
+    text was rendered from: ties parseV to the engine's writer and to the tree `elabDesign` is given"""
+    o = drv.ask({"fn": "parse", "text": text})
+    want = json.loads(json.dumps(design_ast(design)))
+    if not o.get("ok"):
+        res.corr_mismatch("C06.parseV accepts every generated text", pack(design, text), "accepted by construction", o.get("raise", o))
+        return
+    d = first_diff(want, o["modules"])
+    if d:
+        res.corr_mismatch("C06.parseV (lexV text) = syntax tree of the design", pack(design, text), {"at": d[0], "design": d[1]},
+                          {"at": d[0], "parseV": d[2]})
+
+
+def corr_c06_read(res, drv, text, v, inp, order_may_differ, known_sig):
+    """the whole reader from characters in Lean (`elabDesign (parseV (lexV text))`) against sdn.parse"""
+    o = drv.ask({"fn": "read", "text": text})
+    if not o.get("ok"):
+        res.corr_mismatch("C06.readV vs sdn.parse (model rejects, reader accepts)", inp, "accepted", o.get("raise", o), signature=known_sig)
+        return
+    a, b = canon_impl_view(v), canon_model_view(o["view"])
+    d = first_diff(a, b)
+    if d and order_may_differ:
+        res.corr_mismatch("C06.readV vs sdn.parse (port order)", inp, {"at": d[0], "impl": d[1]}, {"at": d[0], "model": d[2]},
+                          signature=K.SIG_POS_ORDER)
+        d = first_diff(ports_sorted(a), ports_sorted(b))
+    if d:
+        res.corr_mismatch("C06.readV vs sdn.parse (view)", inp, {"at": d[0], "impl": d[1]}, {"at": d[0], "model": d[2]}, signature=known_sig)
+
+
 def corr_c06_elab(res, drv, design, v, raised, known_sig):
     """the whole design: Lean `elabDesign` against sdn.parse (view or rejection)"""
     o = drv.ask({"fn": "elab", "modules": design_ast(design)})
@@ -604,6 +634,7 @@ def shard_c06(seed, idx, n_cases, deadline):
             corr_c06_elab(res, drv, d, v, raised, known or (trig[0] if trig else None) or K.corr_sig_c06(d))
             res.dist("designs-elaborated-by-the-model")
             corr_lex(res, drv, text, "generated text", pack(d, text))
+            corr_c06_parse(res, drv, d, text)
     finally:
         drv.close()
         impl.close()
@@ -1385,6 +1416,8 @@ def shard_bundled_c06(seed, idx, files, deadline, tier):
             if len(text) <= (150_000 if tier == "quick" else 1_200_000):
                 corr_c06_elab(res, drv, design, v, None, sig or K.corr_sig_c06(design) or (K.SIG_ASC if K.has_asc(design) else None))
                 res.dist("bundled:elaborated-by-the-model")
+                corr_c06_read(res, drv, text, v, inp, K.order_differs(design), sig)
+                res.dist("bundled:read-from-characters-by-the-model")
     finally:
         drv.close()
         impl.close()
